@@ -270,17 +270,52 @@ pub fn run(ctx: &mut Ctx) {
             let inner = ATerm { v: 6, fields: vec![CField::Bind(q, Box::new(CField::App))], children: vec![body] };
             start.push(ATerm { v: 6, fields: vec![CField::Bind(p, Box::new(CField::App))], children: vec![inner] });
         }
+        // a binding around nested binders whose inner scope mentions the outer bound variable: substitution
+        // (`?b[(var $x) := ?e]`, built from the class's syntactic term) has to go under both binders without capture
+        let mut force: Vec<&str> = Vec::new();
+        if !bad && rng.chance(1, 4) {
+            let var = |c: u32| ATerm { v: 2, fields: vec![CField::Slot(c)], children: vec![] };
+            let bin = |v: usize, a: ATerm, b: ATerm| ATerm { v, fields: vec![CField::App, CField::App], children: vec![a, b] };
+            let sum = |x: u32, b: ATerm| ATerm { v: 6, fields: vec![CField::Bind(x, Box::new(CField::App))], children: vec![b] };
+            let (x, i, j, w) = (18u32, 10u32, 14u32, 2u32);
+            let ij = match rng.below(3) {
+                0 => bin(5, var(i), var(j)),
+                1 => bin(4, var(i), bin(5, var(j), var(j))),
+                _ => bin(5, bin(4, var(i), var(x)), var(j)),
+            };
+            let body = sum(i, sum(j, bin(5, var(x), ij)));
+            let value = match rng.below(3) {
+                0 => var(w),
+                1 => bin(4, var(w), ATerm { v: 15, fields: vec![CField::Lit("1".into())], children: vec![] }),
+                _ => ATerm { v: 15, fields: vec![CField::Lit("2".into())], children: vec![] },
+            };
+            let t = ATerm { v: 3, fields: vec![CField::Bind(x, Box::new(CField::App)), CField::App], children: vec![body.clone(), value] };
+            if rng.chance(1, 3) {
+                start = vec![sum(i, sum(j, bin(5, var(w), bin(4, var(i), var(j)))))];
+                force.push("sum-unroll");
+            } else {
+                start = vec![t];
+                force.push("let-subst");
+            }
+        }
         let n = if bad { BAD_POOL.len() } else { POOL.len() };
         let k = rng.range(2, 9.min(n));
         let mut idx: Vec<usize> = (0..n).collect();
         rng.shuffle(&mut idx);
         idx.truncate(k);
+        for name in &force {
+            if let Some(pos) = POOL.iter().position(|r| r.0 == *name) {
+                if !idx.contains(&pos) {
+                    idx.insert(0, pos);
+                }
+            }
+        }
         let only = ctx.param("only", 999);
         if only < n {
             idx = vec![only];
         }
         let iters = rng.range(1, 4);
-        let ext = allow_extraction && rng.chance(1, 3);
+        let ext = allow_extraction && force.is_empty() && rng.chance(1, 3);
         let helper = rng.chance(1, 2);
         ctx.emit(exec_rw(start, idx, iters, ext, helper, bad));
     }
